@@ -393,3 +393,34 @@ Theorem model_is_code_naive_operand : forall o, wall_in_range (o_wall o) = true 
   glue_pendulum_naive_7 (o_year o) (o_month o) (o_day o) (o_hour o) (o_minute o) (o_second o) (o_microsecond o) = Ok (mkgobj 3 (o_wall o) 1 None).
 Proof. exact glue_naive_operand. Qed.
 Print Assumptions model_is_code_naive_operand.
+
+(* Interval.__init__ (translated up to precise_diff: endpoint normalisation through pendulum.instance / pendulum.date, the native rebuilds WITH
+   fold, _invert = start > end, the absolute swap) = the endpoint part of interval_make; and Interval(a, b, absolute) as the WHOLE record of the
+   model: __new__'s delta, the Duration built from it (Spec/TdFloat.v + Model/Duration.v), __init__'s endpoints and _invert.
+   The fourth and fifth components of the translated __init__ are the two values it hands to precise_diff (C06). *)
+From PV Require Import Proofs.IntervalGlueInit.
+Theorem model_is_code_interval_init : forall a b abs, obj_ok a -> obj_ok b ->
+  init_image (glue_Interval_init a b abs) = iv_endpoints (ep_of a) (ep_of b) abs.
+Proof. exact glue_init_endpoints. Qed.
+Print Assumptions model_is_code_interval_init.
+
+Theorem model_is_code_interval_init_shape : forall a b abs, glue_Interval_init a b abs = spec_init a b abs.
+Proof. exact glue_init_is_spec. Qed.
+Print Assumptions model_is_code_interval_init_shape.
+
+Theorem model_is_code_interval_make : forall a b abs, obj_ok a -> obj_ok b ->
+  interval_make (ep_of a) (ep_of b) abs =
+  bind (glue_Interval_new_delta a b abs) (fun D => bind (duration_of_float_seconds (total_seconds D)) (fun d =>
+  bind (init_image (glue_Interval_init a b abs)) (fun '(inv, s, e) => Ok (mkival d inv s e abs)))).
+Proof. exact glue_interval_make. Qed.
+Print Assumptions model_is_code_interval_make.
+
+(* one endpoint of __init__: a native datetime goes through the translated pendulum.instance -> DateTime.instance(tz=UTC), a native date through
+   pendulum.date, a pendulum object is kept (and rebuilt natively for precise_diff) = instance_ep of the model; the result is again well-formed *)
+Theorem model_is_code_instance_ep : forall o, obj_ok o ->
+  match init_norm o with
+  | Ok (p, n) => instance_ep (ep_of o) = Ok (ep_of p) /\ obj_ok p
+  | Raise e => instance_ep (ep_of o) = Raise e
+  end.
+Proof. exact init_norm_ep. Qed.
+Print Assumptions model_is_code_instance_ep.
